@@ -326,9 +326,13 @@ class GroupCoordinator(object):
             g.history[-1]["assignments"] = dict(assignments)
             g.history[-1]["real_leader"] = real_leader
         self.note(g, "stable", g.generation)
-        for m in g.members.values():
+        gen = g.generation
+        for m in list(g.members.values()):
             m.assignment = assignments.get(m.id, b"")
-            if m.sync_pending is not None:
+        for m in list(g.members.values()):
+            if g.generation != gen or g.state != STABLE:
+                break  # answering one member tore its connection down and started the next rebalance
+            if g.members.get(m.id) is m and m.sync_pending is not None:
                 br, st, entry, rule = m.sync_pending
                 m.sync_pending = None
                 entry["sync_answer"] = {"generation": g.generation, "assignment": m.assignment}
